@@ -26,6 +26,8 @@ C	rax                 rdi,   rsi,      rdx
 
 ASM_START()
 PROLOGUE(mpn_rshift)
+C the count is an int argument: the upper half of its register is undefined
+	mov	%ecx, %ecx
 C below really a movq
 movd %rcx,%mm0
 
